@@ -118,7 +118,7 @@ func c15Bodies() []c15Body {
 var (
 	reUUID   = regexp.MustCompile(`_[0-9a-f]{8}-[0-9a-f]{4}-[0-9a-f]{4}-[0-9a-f]{4}-[0-9a-f]{12}`)
 	reSigVal = regexp.MustCompile(`(<(?:\w+:)?(?:SignatureValue|DigestValue)[^>]*>)[^<]*(<)`)
-	reStored = regexp.MustCompile(`authRequestID=r\d+`)
+	reStored = regexp.MustCompile(`authRequestID=[0-9a-f-]{36}`)
 	reIDAttr = regexp.MustCompile(` ID="([^"]*)"`)
 )
 
